@@ -457,6 +457,9 @@ def apply_renames(tx: Text, renames):
                 if is_path_sep or prev == '.':
                     i += 1; continue
                 if dyn_erase:
+                    # `dyn Fn(A, B)` / `dyn FnMut(..)`: the parenthesised argument sugar belongs to the trait-object type
+                    if k < len(ct) and ct[k].text == '(' and segs[-1] in ('Fn', 'FnMut', 'FnOnce'):
+                        k = rl.match_close(ct, k) + 1
                     tx.edit(ct[i - 1].start, ct[k - 1].end, new, 'R21', f'trait-object type `dyn {old}` erased to stub type {new}')
                 else:
                     tx.edit(ct[i].start, ct[k - 1].end, new, 'R7', f'{old} => {new}')
@@ -754,7 +757,11 @@ def apply_tl_accessor_inline(tx, ct, lo, hi, accessor, fxname):
     an explicit `&mut T` parameter the block means the same.  What is dropped: the RefCell borrow and the accessor's own
     panics (no state installed), exactly as with R5.  BODY must not contain `return` / postfix `?` at closure level (they
     would leave the closure, not the fn): such closures have to be lifted (R5) and re-inserted (R16)."""
-    segs = accessor.split('::')
+    # accessor = path (`a::sys`) or a thread-local's own accessor method (`CURRENT.with`: LocalKey::with runs the closure
+    # once on the thread's value); fxname may list several effect parameters (`a,b`): the closure parameter must be one of them
+    segs = re.split(r'::|\.', accessor)
+    seps = re.findall(r'::|\.', accessor)
+    fxnames = fxname.split(',')
     n_done = 0
     k = lo
     while k < hi:
@@ -763,10 +770,11 @@ def apply_tl_accessor_inline(tx, ct, lo, hi, accessor, fxname):
             if ct[j].kind != 'id' or ct[j].text != sname: ok = False; break
             j += 1
             if si < len(segs) - 1:
-                if ct[j].text == ':' and ct[j + 1].text == ':': j += 2
+                if seps[si] == '::' and ct[j].text == ':' and ct[j + 1].text == ':': j += 2
+                elif seps[si] == '.' and ct[j].text == '.': j += 1
                 else: ok = False; break
         if ok and ct[k - 1].text not in ('.', ':') and ct[j].text == '(' and ct[j + 1].text == '|' and ct[j + 2].kind == 'id' and ct[j + 3].text == '|':
-            if ct[j + 2].text != fxname:
+            if ct[j + 2].text not in fxnames:
                 raise SpecError(f'UNSUPPORTED: {tx.rel}: {accessor}(|{ct[j + 2].text}| ..): closure parameter is not the fx parameter `{fxname}`')
             close = rl.match_close(ct, j)
             depth = 0
@@ -776,7 +784,7 @@ def apply_tl_accessor_inline(tx, ct, lo, hi, accessor, fxname):
                 if depth == 0 and ((ct[q].kind == 'id' and ct[q].text == 'return')
                                    or (ct[q].text == '?' and (ct[q - 1].kind in ('id', 'num') or ct[q - 1].text in (')', ']', '}')))):
                     raise SpecError(f'UNSUPPORTED: {tx.rel}: {accessor} closure contains return/?; R27 not applicable (lift it)')
-            tx.edit(ct[k].start, ct[j + 3].end, '{', 'R27', f'{accessor}(|{fxname}| BODY) inlined: thread-local state is the explicit parameter `{fxname}`')
+            tx.edit(ct[k].start, ct[j + 3].end, '{', 'R27', f'{accessor}(|{ct[j + 2].text}| BODY) inlined: thread-local state is the explicit parameter `{ct[j + 2].text}`')
             tx.edit(ct[close].start, ct[close].end, '}', 'R27', f'end of inlined {accessor} closure')
             n_done += 1
             k = j + 4; continue
@@ -1541,7 +1549,7 @@ class Gen:
             # tlin=sys (with fx=k:Kernel): R27 on every `sys(|k| BODY)` of the fn
             if not it.opts.get('fx'):
                 raise SpecError(f'{region}: tlin= needs fx=')
-            apply_tl_accessor_inline(tx, ct, fp['bopen'], body_hi, it.opts['tlin'], it.opts['fx'].split('+')[0].split(':', 1)[0])
+            apply_tl_accessor_inline(tx, ct, fp['bopen'], body_hi, it.opts['tlin'], ','.join(x.split(':', 1)[0] for x in it.opts['fx'].split('+')))
         if it.opts.get('tls'):
             # tls=recv.name,name2 (or tls=-): R19 on every World::enter(&W, || BODY) of the fn
             apply_tls_inline(tx, ct, fp['bopen'], fp['bclose'], [x for x in it.opts['tls'].split(',') if x and x != '-'],
